@@ -20,7 +20,7 @@ M = [
  ('C02-slotat-lower-bound', 'C02', 'src/inc/opcodes.h', '((map + (x) >= &smap[-1] && map + (x) < smap.end()) ?', '((map + (x) < smap.end()) ?'),
  ('C03-delete-count', 'C03', 'src/inc/opcodes.h', '        is = is->prev();\n    seg.extendLength(-1);', '        is = is->prev();'),
  ('C04-attach-cycle-guard', 'C04', 'src/Slot.cpp', 'if (count < 100 && !foundOther && other->child(this))', 'if (other->child(this))'),
- ('C04-sibling-duplicate', 'C04', 'src/Slot.cpp', '    else if (ap == m_sibling) return true;\n', ''),
+ ('C04-reattach-keeps-old-parent', 'C04', 'src/Slot.cpp', 'if (m_parent) { m_parent->removeChild(this); attachTo(NULL); }', 'if (m_parent) { attachTo(NULL); }'),
  ('C05-index-assign', 'C03', 'src/Segment.cpp', 'for (Slot * s = m_first; s; s->index(i++), s = s->next())', 'for (Slot * s = m_first; s; s->index(i), i += (i < 40), s = s->next())'),
  ('C08-cache-fallback-glyph', 'C08', 'src/GlyphCache.cpp', '            delete g;\n            return *_glyphs;', '            delete g;\n            p = *_glyphs;\n            return *_glyphs;'),
  ('C09-keep-loader', 'C09', 'src/GlyphCache.cpp', '        delete _glyph_loader;\n        _glyph_loader = 0;\n\t// coverity', '\t// coverity'),
@@ -32,7 +32,7 @@ M = [
  ('C16-assign-without-release', 'C16', 'src/Face.cpp', '    if (this == &rhs)   return *this;\n    release();\n    new (this)', '    if (this == &rhs)   return *this;\n    new (this)'),
  ('C18-clear-mask', 'C18', 'src/FeatureMap.cpp', '    pDest[m_index] &= ~m_mask;\n', ''),
  ('C18-range-check', 'C18', 'src/FeatureMap.cpp', 'if (val>maxVal() || !m_face)', 'if (val>maxVal()+1 || !m_face)'),
- ('C19-restore-first', 'C19', 'src/Justifier.cpp', '    m_first = oldFirst;\n    m_last = oldLast;\n', '    m_last = oldLast;\n'),
+ ('C19-dellineend-relink', 'C19', 'src/Justifier.cpp', '        nSlot->prev(s->prev());\n', ''),
  ('C19-linebreak-prev', 'C19', 'src/gr_slot.cpp', '    prev->next(NULL);\n    p->prev(NULL);', '    prev->next(NULL);'),
 ]
 
